@@ -25,7 +25,7 @@ if False:
     T = t.TypeVar('T')
 
 IMPORT_DELIMETERS = string.whitespace + '(,'
-IMPORT_END_DELIMETERS = string.whitespace + '),.;(:#\\'
+IMPORT_END_DELIMETERS = string.whitespace + '),.;(:[#\\'
 
 
 class Unresolved(object):
